@@ -227,10 +227,13 @@ class Batch:
   def let(self, name, value):
     self.setup_lines.append('let %s %s' % (name, value))
 
-  def add(self, line, impl, tag='', pred=None, info=None, nontrivial=True, canon=None):
-    """canon: optional canonicaliser applied to the MODEL's response before comparing."""
+  def add(self, line, impl, tag='', pred=None, info=None, nontrivial=True, canon=None,
+          always=False):
+    """canon: optional canonicaliser applied to the MODEL's response before comparing.
+    always: evaluate `pred` (the property itself, on the implementation) even when model and
+    implementation agree — used for clauses that no theorem covers."""
     self.items.append(dict(line=line, impl=impl, tag=tag, pred=pred, info=info,
-                           nontrivial=nontrivial, canon=canon))
+                           nontrivial=nontrivial, canon=canon, always=always))
     self.tags[tag] = self.tags.get(tag, 0) + 1
 
   def run(self):
@@ -286,6 +289,17 @@ class Report:
       if it['nontrivial'] and k < max_samples:
         self.samples.append({'op': trunc(it['line']), 'impl': trunc(it['impl'])})
         k += 1
+    divset = set(id(it) for it in div)
+    for it in batch.items:
+      if it.get('always') and it['pred'] is not None and id(it) not in divset:
+        try:
+          failing = it['pred']()
+        except Exception as e:  # noqa
+          failing = 'predicate raised %r' % (e,)
+        self.pred_evaluations = getattr(self, 'pred_evaluations', 0) + 1
+        if failing:
+          self.violations.append(dict(op=batch.name, line=it['line'], what=failing,
+                                      impl=it['impl'], model=it.get('model'), info=it['info']))
     for it in div:
       d = dict(op=batch.name, line=it['line'], impl=it['impl'], model=it['model'],
                tag=it['tag'], info=it['info'])
